@@ -232,6 +232,7 @@ def o_history(ops):
 
     lib = Library()
     model = Model()
+    init_list = None  # the list handed to Library(blocks): it stays the caller's
     cls = set()
     n_wrap = n_rm = 0
     removed_live_keys = set()
@@ -271,8 +272,9 @@ def o_history(ops):
                 where = "Library(blocks)"
 
                 def call():
-                    nonlocal lib
-                    lib = Library(list(objs))
+                    nonlocal lib, init_list
+                    init_list = list(objs)
+                    lib = Library(init_list)
         elif name == "remove":
             _, refs, as_list = op
             objs = [deref(r, lib) for r in refs]
@@ -313,10 +315,17 @@ def o_history(ops):
             raise harness.HarnessError(f"unknown op {op!r}")
 
         raised = None
+        arg_list = arg if name in ("add", "remove") and isinstance(arg, list) else None
+        arg_before = list(arg_list) if arg_list is not None else None
         try:
             ret = call()
         except ValueError as e:
             raised = e
+        # lists handed over by the caller stay the caller's: neither edited by the call nor adopted by the library
+        if arg_list is not None and (len(arg_list) != len(arg_before) or any(a is not b for a, b in zip(arg_list, arg_before))):
+            return ((f"caller-list-changed:{where}", f"step {step} {op!r}: {arg_list!r}", repr(arg_before)), True, sorted(cls))
+        if init_list is not None and (len(init_list) != len(ops[0][1]) or (name == "init" and any(a is not b for a, b in zip(init_list, objs)))):
+            return ((f"constructor-list-adopted:{where}", f"step {step} {op!r}: the list given to Library(blocks) now holds {len(init_list)} blocks", f"{len(ops[0][1])} blocks, as handed over"), True, sorted(cls))
         nontriv = n_wrap > 0 and n_rm > 0
         if raised is not None:
             cls.add("raising-call")
@@ -342,6 +351,12 @@ def o_history(ops):
         f = _views_fail(lib, model, where, copy_of)
         if f:
             return ((f[0], f"step {step} {op!r}: " + f[1], f[2]), True, sorted(cls))
+    if init_list is not None:
+        # ... and emptying it afterwards changes nothing the library reports
+        del init_list[:]
+        f = _views_fail(lib, model, "after-the-constructor-list-was-emptied", copy_of)
+        if f:
+            return (f, True, sorted(cls))
     return (None, n_wrap > 0 and n_rm > 0, sorted(cls))
 
 
